@@ -118,6 +118,14 @@ class _Iter:
         return self.items[self.pos:]
 
 
+class _CallStream:
+    """iter(callable, sentinel), possibly wrapped in filter(None, ...): an endless stream of results of calling `callable`;
+    every next() is a fresh call (and, when filtered, a truthy one)."""
+
+    def __init__(self, fn, sentinel, truthy=False, pred=None):
+        self.fn, self.sentinel, self.truthy, self.pred = fn, sentinel, truthy, pred
+
+
 class _Closure:
     """A function defined inside a function (a decorator's wrapper, a helper): its definition and the environment it closes over
     (by reference, as in Python)."""
@@ -1820,6 +1828,10 @@ class Evaluator:
         return out
 
     def call_value(self, fv, pos, kw, e, fr):
+        if isinstance(fv, T) and fv.op == "lambda" and not kw:
+            r = self.apply_lambda(fv, list(pos), fr)
+            if r is not None:
+                return r
         if isinstance(fv, _Closure):
             return self.call_fn(fv.fi, pos, kw, e, fr, closure_env=fv.env)
         if isinstance(fv, T) and fv.op == "fnraw":
@@ -2184,8 +2196,17 @@ class Evaluator:
 
     def _extern(self, n, pos, kw, e, fr):
         a0 = pos[0] if pos else None
+        if n == "iter" and len(pos) == 2 and not kw:
+            return _CallStream(a0, pos[1])
+        if n == "filter" and len(pos) == 2 and isinstance(pos[1], _CallStream) and pos[1].pred is None and (a0 is None or (isinstance(a0, T) and a0.op == "ext" and a0.args[0] == "builtins.bool")):
+            return _CallStream(pos[1].fn, pos[1].sentinel, truthy=True)
+        if n == "next" and len(pos) == 1 and isinstance(a0, _CallStream):
+            v = self.call_value(a0.fn, [], {}, e, fr)
+            if a0.truthy:
+                fr.facts.append(tm.truth(v))  # falsy results were skipped
+            return v
         if n == "iter" and len(pos) == 1:
-            if isinstance(a0, _Iter):
+            if isinstance(a0, (_Iter, _CallStream)):
                 return a0
             seq0 = _concrete_iter(a0) if not isinstance(a0, (dict, str, bytes)) else None
             if seq0 is not None:
